@@ -126,6 +126,21 @@ def check(spec):
     for i, Mi in enumerate(Md):
         if float(np.max(np.abs(Mi.conj().T @ Mi - np.eye(d)))) > TOL:
             return bad(f"not-unitary:{tag}:{bt}", Mi, "U^dagger U = I", row=rows[i])
+    # "first listed wire = most significant qubit" must also hold when the matrix is requested in another order of the
+    # gate's own wires: qp.matrix(op, wire_order=perm) == reference re-indexed by explicit tensor permutation
+    wires = list(op.wires)
+    if b is None and 2 <= len(wires) <= 3:
+        import itertools
+
+        from mc import refsim as RS
+
+        for perm in itertools.permutations(wires):
+            if list(perm) == wires:
+                continue
+            Mp = np.asarray(qp.matrix(op, wire_order=list(perm)))
+            v = _compare(f"{tag}:wire-order-permuted", Mp, RS.embed(want, wires, list(perm)))
+            if v:
+                return v
     if b is not None:
         # batched call == stack of the implementation's own un-batched calls
         own = np.stack([np.asarray(qp.matrix(cat.build(wrap(_unbatched(gs, r))))) for r in rows])
